@@ -137,6 +137,7 @@ def _eq_by_interpretation(ctx, cls, eqdef):
 
 
 @rule("C14.eq-fields", props=["C14"], min_instances=6, mutants=[
+    ("a basis is compared as the sorted list of its names", ("algebra", "        return (all(getattr(self, f.name) == getattr(other, f.name) for f in fields(self) if f.compare)\n", "        return (all(getattr(self, f.name) == getattr(other, f.name) for f in fields(self) if f.compare and f.name != 'basis')\n                and sorted(self.basis) == sorted(other.basis)\n")),
     ("basis no longer compared", ("algebra", "    basis: List[str] = field(repr=False, default_factory=list)", "    basis: List[str] = field(repr=False, default_factory=list, compare=False)")),
     ("signature no longer compared", ("algebra", "\n                and np.array_equal(self.signature, other.signature))", ")")),
     ("equality compares the dimension only", ("algebra", "        return (all(getattr(self, f.name) == getattr(other, f.name) for f in fields(self) if f.compare)\n                and np.array_equal(self.signature, other.signature))", "        return self.d == other.d")),
